@@ -190,6 +190,23 @@ where
                 acc.violate(format!("signum/abs:{}", tname), format!("signum/abs on {} at {:e}: signum {:?}/{:?}, abs {:e}/{:e}", tname, x0f, sg_a, sg_b, ab_a, ab_b), case());
             }
         }
+        // the predicates at special real parts (signed zeros, infinities, NaN of either sign): the
+        // float's own answer, whatever the derivative parts say
+        if ci % 4 == 0 {
+            let specials = [0.0f64, -0.0, 1.0, -1.0, 5e-324, -5e-324, f64::INFINITY, f64::NEG_INFINITY, f64::NAN, -f64::NAN, 2.5, -2.5];
+            let s0 = specials[(ci / 4) as usize % specials.len()];
+            let mut sl = perturbed(&mut rng, &b, 1.0, T::IS_F32);
+            sl[0] = s0;
+            let xs: T = build_with(&shape, &sl, &mut MaskAbsent::new(rng.next_u64()));
+            let xf0: T::F = f_of::<T>(s0);
+            let fl = (xf0.is_zero(), xf0.is_one(), Signed::is_positive(&xf0), Signed::is_negative(&xf0));
+            let du = (xs.is_zero(), xs.is_one(), xs.is_positive(), xs.is_negative());
+            let nm = if s0.is_nan() { if s0.is_sign_negative() { "-NaN".to_string() } else { "NaN".to_string() } } else { format!("{:e}", s0) };
+            acc.observe(&format!("predicates-special|{}|{}", tname, nm), true);
+            if du != fl {
+                acc.violate(format!("predicates-special:{}", tname), format!("is_zero/is_one/is_positive/is_negative on {} at real part {} = {:?} but the float says {:?}", tname, nm, du, fl), json!({"type": tname, "real_part": nm}));
+            }
+        }
         if ci == 0 && tindex % 7 == 0 {
             acc.sample(|| json!({"type": tname, "program": prog.to_json(), "real_parts": ra.iter().map(|v| parts(v, &shape)[0]).collect::<Vec<_>>(), "float_run": rf.iter().map(|v| parts(v, &leaf)[0]).collect::<Vec<_>>()}));
         }
